@@ -533,7 +533,7 @@ theorem C04.buildT_eq_build_aux {K : Type} [Field K] [DecidableEq K]
           simp only [this, Deleg.eval, negOneTimes, dRMul_scal env b' _ h2, Option.map_some,
             Option.bind_some]
           exact pyAdd_op env a' _
-        | mul => exact dMul_op env a' b'
+        | mul => exact pyMul_op env a' b' h2
         | pprod => rfl
         | quot => rfl
   | sc o a s ih =>
